@@ -80,6 +80,9 @@ def closure(index, specs, fname):
                     replaced.append(c)
             elif c in specs.inline:
                 todo.append(c)
+            elif re.search(r'__loop\d+$', c):
+                # a nested loop the contracts do not know: the code's loop structure changed
+                raise StructureError('callee %s of %s is an outlined loop without a contract (loop structure changed)' % (c, f))
             else:
                 raise InfraError('callee %s of %s has neither a contract nor an @inline entry' % (c, f))
     return defined, sorted(replaced)
